@@ -38,16 +38,23 @@ def main():
         return seen_cache[key]
 
     def table_of(spec):
-        key = json.dumps(spec, sort_keys=True)
-        if key not in table_cache:
-            if 'variant' in spec:
-                table_cache[key] = grammars.unary_table(spec['variant'])
-            else:
-                t = {}
-                for k, v in spec['pairs']:
-                    t.setdefault(Category.parse(k), []).append(Category.parse(v))
-                table_cache[key] = t
-        return table_cache[key]
+        # built the way depccg.allennlp.utils.read_params builds it (a defaultdict(list)) unless the item asks
+        # for a plain dict; a fresh object per evaluation, so that a mutation by one call is visible
+        from collections import defaultdict
+        if 'variant' in spec:
+            pairs = grammars.shipped('unary_rules', spec['variant'])
+        else:
+            pairs = spec['pairs']
+        t = {} if spec.get('plain_dict') else defaultdict(list)
+        for k, v in pairs:
+            ck = Category.parse(k)
+            if ck not in t:
+                t[ck] = []
+            t[ck].append(Category.parse(v))
+        return t
+
+    def snapshot_table(t):
+        return (type(t).__name__, len(t), tuple((str(k), tuple(str(c) for c in v)) for k, v in t.items()))
 
     def evaluate(item):
         mod = mods[item['lang']]
@@ -56,17 +63,20 @@ def main():
                 x, y = cat(item['x']), cat(item['y'])
                 before = (str(x), str(y), hash(x), hash(y))
                 seen = seen_of(item.get('seen'))
+                seen_size = None if seen is None else len(seen)
                 if seen is None and item.get('plain'):
                     res = mod.apply_binary_rules(x, y)
                 else:
                     res = mod.apply_binary_rules(x, y, seen)
                 after = (str(x), str(y), hash(x), hash(y))
-                same_value = (x == Category.parse(before[0]) and y == Category.parse(before[1]))
+                same_value = (x == Category.parse(before[0]) and y == Category.parse(before[1])
+                              and (seen is None or len(seen) == seen_size))
             else:
                 x = cat(item['x'])
-                before = (str(x), hash(x))
-                res = mod.apply_unary_rules(x, table_of(item['table']))
-                after = (str(x), hash(x))
+                table = table_of(item['table'])
+                before = (str(x), hash(x), snapshot_table(table))
+                res = mod.apply_unary_rules(x, table)
+                after = (str(x), hash(x), snapshot_table(table))
                 same_value = x == Category.parse(before[0])
             out = [[str(r.cat), r.op_string, r.op_symbol, bool(r.head_is_left)] for r in res]
             if not isinstance(res, list):
